@@ -35,10 +35,12 @@ Definition set_nth (l : list N) (i : nat) (v : N) : list N := firstn i l ++ v ::
 
 Definition chan_val (s : sw) (c : nat) : N := nth c (sw_vals s) 0.
 
-(** worker steps and the client's poll *)
+(** worker steps (program order of handle_append_events: [SRoll]; SWrite; [SSync]; SReply) and the client's poll *)
 Inductive sstep :=
-  | SReply (n : N)      (* a transaction of n bytes was written; the client gets (channel, offset) *)
-  | SSync               (* WriterSet::sync *)
+  | SWrite (n : N)      (* handle_write appended a transaction of n bytes *)
+  | SReply              (* the reply: the client gets (current channel, current write offset) *)
+  | SSync               (* WriterSet::sync (from FlushPoll, or sync_if_necessary at the end of handle_write,
+                           i.e. possibly between a transaction's write and its reply) *)
   | SRoll               (* WriterSet::rollover *)
   | SPoll (w : nat).    (* waiter w looks at the latest value of ITS channel *)
 
@@ -47,9 +49,8 @@ Definition sw_publish (m : wmode) (s : sw) : sw :=
 
 Definition sw_step (m : wmode) (s : sw) (st : sstep) : sw :=
   match st with
-  | SReply n =>
-      let off := sw_off s + n in
-      mkSw (sw_seg s) off (sw_vals s) (sw_waiters s ++ [mkWaiter (chan_of m (sw_seg s)) off])
+  | SWrite n => mkSw (sw_seg s) (sw_off s + n) (sw_vals s) (sw_waiters s)
+  | SReply => mkSw (sw_seg s) (sw_off s) (sw_vals s) (sw_waiters s ++ [mkWaiter (chan_of m (sw_seg s)) (sw_off s)])
   | SSync => sw_publish m s
   | SRoll =>
       let s1 := sw_publish m s in
@@ -68,7 +69,6 @@ Definition poll_ok (s : sw) (w : nat) : bool :=
   match nth_error (sw_waiters s) w with Some wt => covered s wt | None => false end.
 
 Definition is_sync (st : sstep) : bool := match st with SSync | SRoll => true | _ => false end.
-Definition pos_reply (st : sstep) : bool := match st with SReply n => 0 <? n | _ => true end.
 
 (** the index the next reply's waiter gets *)
 Definition next_waiter (m : wmode) (pre : list sstep) : nat := length (sw_waiters (sw_run m pre)).
